@@ -103,7 +103,7 @@ type FT struct {
 	modular map[string]bool
 	kindCnt map[string]int
 	loopMod map[*ssa.BasicBlock]map[string]bool // pass-1 result
-	frameOK map[*ssa.BasicBlock]map[string]bool // pass-1 result: loops x heaps that only get cells allocated inside the loop written
+	frameOK map[*ssa.BasicBlock]map[string]int // pass-1 result: loops x heaps that only get cells allocated inside the loop written
 	pass    int
 	written map[*ssa.BasicBlock]map[string]bool
 	oldWrite map[*ssa.BasicBlock]map[string]bool        // writes that may hit cells allocated outside the writing loop
@@ -224,7 +224,7 @@ func (ft *FT) stateSet(fr *frame, st *State, name, sort, term string) {
 	st.vars[name] = term
 	if fr != nil && fr.curBlk != nil {
 		ft.noteWrite(fr.curBlk, name)
-		if strings.HasPrefix(name, "H|") {
+		if strings.HasPrefix(name, "H|") || strings.HasPrefix(name, "M|") {
 			ft.noteHeapWrite(fr.curBlk, name, ft.pendingAlloc)
 		}
 	}
@@ -247,6 +247,15 @@ func (ft *FT) noteHeapWrite(b *ssa.BasicBlock, name string, allocBlk *ssa.BasicB
 		ft.freshIn[b] = map[string][]*ssa.BasicBlock{}
 	}
 	ft.freshIn[b][name] = append(ft.freshIn[b][name], allocBlk)
+}
+
+func (ft *FT) anyOldWrite(name string) bool {
+	for _, m := range ft.oldWrite {
+		if m[name] {
+			return true
+		}
+	}
+	return false
 }
 
 func (ft *FT) noteWrite(b *ssa.BasicBlock, name string) {
@@ -291,7 +300,7 @@ func isRepoFunc(fn *ssa.Function) bool {
 // TranslateFunction produces the obligations for fn against its contract.
 func (g *Gen) TranslateFunction(fn *ssa.Function, c *Contract) *FT {
 	var loopMod map[*ssa.BasicBlock]map[string]bool
-	frameOK := map[*ssa.BasicBlock]map[string]bool{}
+	frameOK := map[*ssa.BasicBlock]map[string]int{}
 	var ft *FT
 	for pass := 1; pass <= 2; pass++ {
 		ft = &FT{g: g, fn: fn, name: ftName(fn, c), c: c, ssorts: map[string]string{}, assumed: map[string]bool{}, havoced: map[string]bool{}, inlined: map[string]bool{},
@@ -324,23 +333,29 @@ func (ft *FT) computeLoopMods() map[*ssa.BasicBlock]map[string]bool {
 			}
 			res[h] = m
 			// heaps whose writes inside the loop only touch cells allocated inside the loop
-			fo := map[string]bool{}
+			// 1: only cells allocated inside the loop are written; 2: only cells allocated by this function (after its
+			// entry) are written, some of them before the loop
+			fo := map[string]int{}
 			for k := range m {
-				if !strings.HasPrefix(k, "H|") {
+				if !strings.HasPrefix(k, "H|") && !strings.HasPrefix(k, "M|") {
 					continue
 				}
-				ok := true
+				mode := 1
 				for b := range body {
 					if ft.oldWrite[b][k] {
-						ok = false
+						mode = 0
+						break
 					}
 					for _, ab := range ft.freshIn[b][k] {
 						if !body[ab] {
-							ok = false
+							mode = 2
 						}
 					}
 				}
-				fo[k] = ok
+				if mode == 2 && !strings.HasPrefix(k, "M|") {
+					mode = 0 // kept conservative for pointer heaps: allocation sites of inlined callees are not tracked precisely
+				}
+				fo[k] = mode
 			}
 			ft.frameOK[h] = fo
 		}
@@ -545,8 +560,13 @@ func (ft *FT) frameObligations(fr *frame, entry, exit *State, guard string) {
 		if pre == post {
 			continue
 		}
-		if strings.HasPrefix(k, "H|") {
-			// fresh cells may be written: only pre-existing cells must be unchanged
+		if strings.HasPrefix(k, "M|") && !ft.anyOldWrite(k) {
+			// every write to this map heap went through a map created by this very translation (MakeMap value used
+			// directly): no cell that existed at entry can have changed
+			continue
+		}
+		if strings.HasPrefix(k, "H|") || strings.HasPrefix(k, "M|") {
+			// fresh cells (and fresh Go maps) may be written: only pre-existing cells must be unchanged
 			nx := ft.stateGet(entry, "$next", "Int")
 			except := ""
 			for _, r := range cellOK[k] {
@@ -666,6 +686,10 @@ func (ft *FT) joinStates(sts []*State, guards []string) *State {
 		c := ft.fresh("j_"+mangle(k), sortK)
 		for i, s := range sts {
 			ft.fact("(=> " + guards[i] + " (= " + c + " " + ft.stateGet(s, k, sortK) + "))")
+		}
+		if k == "$next" {
+			// the allocation watermark only grows (stated on the join so that it does not depend on which edge was taken)
+			ft.fact("(>= " + c + " " + ft.stateGet(nil, "$next", "Int") + ")")
 		}
 		out.vars[k] = c
 	}
@@ -1096,11 +1120,14 @@ func (fr *frame) loopHeader(h *ssa.BasicBlock, body map[*ssa.BasicBlock]bool, st
 		nv := ft.fresh("hv_"+mangle(k), s)
 		nst.vars[k] = nv
 		ft.noteWrite(h, k)
-		if strings.HasPrefix(k, "H|") && ft.frameOK[h][k] {
-			// automatic frame invariant: cells that existed before the loop are not modified by it
-			// (assumed here, asserted on every back edge)
+		if (strings.HasPrefix(k, "H|") || strings.HasPrefix(k, "M|")) && ft.frameOK[h][k] > 0 {
+			// automatic frame invariant: cells that existed before the loop (mode 2: before the function was entered)
+			// are not modified by it (assumed here, asserted on every back edge)
 			oldT := ft.stateGet(st, k, s)
 			oldNx := ft.stateGet(st, "$next", "Int")
+			if ft.frameOK[h][k] == 2 {
+				oldNx = ft.stateGet(nil, "$next", "Int")
+			}
 			if fr.loopFrames == nil {
 				fr.loopFrames = map[*ssa.BasicBlock][]loopFrame{}
 			}
@@ -1172,7 +1199,7 @@ func (fr *frame) backEdge(src, h *ssa.BasicBlock, st *State) {
 	invs := fr.loopInvsAt(h, ord)
 	for _, lf := range fr.loopFrames[h] {
 		cur := ft.stateGet(st, lf.name, lf.sort)
-		ft.addObl(fr, "inv-pres", fmt.Sprintf("%sL%d.frame(%s)", fr.tag, ord, strings.TrimPrefix(lf.name, "H|")), guard,
+		ft.addObl(fr, "inv-pres", fmt.Sprintf("%sL%d.frame(%s)", fr.tag, ord, strings.TrimPrefix(strings.TrimPrefix(lf.name, "H|"), "M|")), guard,
 			fmt.Sprintf("(forall ((r Int)) (=> (< r %s) (= (select %s r) (select %s r))))", lf.oldNext, cur, lf.old), "automatic frame invariant: the loop does not modify cells allocated before it", nil, nil)
 	}
 	if len(invs) == 0 {
